@@ -87,7 +87,7 @@ func c12Run(c c12Case) (*eng.Fail, bool) {
 
 func init() {
 	checks["C12"] = eng.Check{
-		Rule: "SetWidth(e,w') for w' in 1..4 (and 5,8,255 on the wide space) and PurgeWidthGadgets(e) on every tree of the C09 spaces; result width and value (original adjusted to w') compared under 9 valuations; memory-load (key, address width, load width) lists compared for purge. Non-trivial = result structurally different from the input.",
+		Rule:        "SetWidth(e,w') for w' in 1..4 (and 5,8,255 on the wide space) and PurgeWidthGadgets(e) on every tree of the C09 spaces; result width and value (original adjusted to w') compared under 9 valuations; memory-load (key, address width, load width) lists compared for purge. Non-trivial = result structurally different from the input.",
 		Assumptions: []string{"semantic equality decided on 9 valuations with pseudo-random memory (a changed address changes the bytes read)"},
 		Run: func(r *eng.Run) {
 			forTrees(r, treeSpacesFor(r), func(ref treeRef, e expr.Expr) {
@@ -119,6 +119,7 @@ func init() {
 			})
 		},
 		Replay: func(r *eng.Run, raw json.RawMessage) *eng.Fail {
+			resetSpaces() // fresh, uncorrupted trees
 			var c c12Case
 			if err := json.Unmarshal(raw, &c); err != nil {
 				panic(err)
